@@ -44,6 +44,15 @@ def cases(ctx):
         for _ in range(10):
             yield 'strs', {'alpha': S.ALPHA26, 'len': 4, 'start': rng.randrange(26 ** 4 - BATCH),
                            'count': BATCH, 'sep': '', 'partial': True}
+    # deep enumeration over two tiny alphabets: string escapes (backslash parity before a quote) and
+    # alignment bodies (digits, commas, prefix letter, period)
+    for alpha, L in ((['"', '\\', 'a', ' '], 7 if q else 9), (['~', '1', ',', 'e', '.', 'a'], 5 if q else 7)):
+        for ln in range(4, L + 1):
+            total = len(alpha) ** ln
+            for start in range(0, total, BATCH):
+                if ctx.mine(b):
+                    yield 'strs', {'alpha': alpha, 'len': ln, 'start': start, 'count': BATCH, 'sep': ''}
+                b += 1
     toks = S.TOKENS22 + S.TOKENS_EXTRA
     for L in range(0, 3 if q else 4):
         total = len(toks) ** L
